@@ -590,6 +590,10 @@ func (c *Ctx) rulesC09(la *LockAnalysis) {
 			if fk == pr+":NewServer" {
 				continue
 			}
+			// a private helper split from an exported entry point keeps its key
+			if hr := c.hostRootOf(acc.Fn); hr != topFunc(acc.Fn) && isExportedFunc(hr) {
+				fk = funcKey(hr)
+			}
 			kind := "read"
 			if acc.Write {
 				kind = "write"
